@@ -20,6 +20,7 @@ mod verif_c07 {
         matches!(b, b'/' | b'?' | b'#' | b'&' | b'=' | b'+' | b'%' | b' ' | b';') || b < 0x20 || b == 0x7f
     }
 
+//@@INTERNALS-BEGIN
     // the copy of the encode sets in conjure-macros/src/client.rs, extracted textually on every run
     pub mod macro_copy {
         use percent_encoding::AsciiSet;
@@ -137,6 +138,22 @@ mod verif_c07 {
         kani::cover!(true);
     }
 
+    // ---- server side inverse for one ASCII character: percent-decoding the escape gives the byte back ------
+    #[kani::proof]
+    #[kani::unwind(8)]
+    fn percent_decode_inverts_escape_ascii() {
+        let b: u8 = kani::any();
+        kani::assume(b < 128);
+        let esc: [u8; 3] = [b'%', hex(b >> 4), hex(b & 15)];
+        let one: [u8; 1] = [b];
+        // what push_escaped appends for this character (obligations push_escaped_ascii_*)
+        let src: &[u8] = if unreserved(b) { &one } else { &esc };
+        let mut it = percent_encoding::percent_decode(src);
+        assert!(it.next() == Some(b));
+        assert!(it.next().is_none());
+        kani::cover!(true);
+    }
+//@@INTERNALS-END
     // ---- per-call structure contracts (pre-state: empty buffer, symbolic in_path) ------------------------
     #[kani::proof]
     #[kani::unwind(8)]
@@ -212,19 +229,4 @@ mod verif_c07 {
         std::mem::forget(q);
     }
 
-    // ---- server side inverse for one ASCII character: percent-decoding the escape gives the byte back ------
-    #[kani::proof]
-    #[kani::unwind(8)]
-    fn percent_decode_inverts_escape_ascii() {
-        let b: u8 = kani::any();
-        kani::assume(b < 128);
-        let esc: [u8; 3] = [b'%', hex(b >> 4), hex(b & 15)];
-        let one: [u8; 1] = [b];
-        // what push_escaped appends for this character (obligations push_escaped_ascii_*)
-        let src: &[u8] = if unreserved(b) { &one } else { &esc };
-        let mut it = percent_encoding::percent_decode(src);
-        assert!(it.next() == Some(b));
-        assert!(it.next().is_none());
-        kani::cover!(true);
-    }
 }
